@@ -194,3 +194,22 @@ def readFull (r : BytesReader) (n : Int) : M (BytesReader × List UInt8) :=
   else pure ({ r with pos := r.pos + k }, (r.data.drop r.pos).take k)
 
 end Go
+
+namespace Go
+
+/-! ### errors as values, io.ReaderAt -/
+
+/-- a Go `error` value in functions that inspect errors (compare with `io.EOF`, store, return) -/
+inductive Error where
+  | nil
+  | eof
+  | unexpectedEOF
+  | other (tag : String)
+deriving Repr, DecidableEq, Inhabited
+
+/-- an `io.ReaderAt`: `ReadAt(p, off)` with `len(p) = n` as a function `(n, off) ↦ (bytes read, err)`; the bytes read are
+    the new front of `p`.  The io.ReaderAt contract (`n < len(p) ⇒ err ≠ nil`, at most `len(p)` bytes) is a hypothesis
+    of the theorems that need it, not part of the type. -/
+abbrev ReaderAt := Int → Int → (List UInt8 × Error)
+
+end Go
